@@ -264,18 +264,33 @@ func ToInteger(p Primary) Primary {
 		if math.IsNaN(val.Raw()) || math.IsInf(val.Raw(), 0) {
 			return NewNull()
 		}
-		return NewInteger(int64(val.Raw()))
+		return NewInteger(float64ToInt64(val.Raw()))
 	case *String:
 		s := option.TrimSpace(val.Raw())
 		if i, e := strconv.ParseInt(s, 10, 64); e == nil {
 			return NewInteger(i)
 		}
 		if f, e := strconv.ParseFloat(s, 64); e == nil {
-			return NewInteger(int64(f))
+			if math.IsNaN(f) || math.IsInf(f, 0) {
+				return NewNull()
+			}
+			return NewInteger(float64ToInt64(f))
 		}
 	}
 
 	return NewNull()
+}
+
+// float64ToInt64 truncates a float toward zero. The result of the conversion of a float that is out of the
+// range of integers depends on the platform: such a float is converted to the nearest integer instead.
+func float64ToInt64(f float64) int64 {
+	if 9223372036854775808.0 <= f {
+		return math.MaxInt64
+	}
+	if f < -9223372036854775808.0 {
+		return math.MinInt64
+	}
+	return int64(f)
 }
 
 func ToIntegerStrictly(p Primary) Primary {
